@@ -11,6 +11,12 @@ package basichost
 // on the direct and on the limited connection, plus pairs of concurrent opens, and each open is checked
 // against the statement (see oracle()). Two searches: BasicHosts (part "negotiation") and BlankHosts (part
 // "blankhost").
+//
+// First-use dimension (added after a seeded change - CloseWrite not flushing the lazy multistream handshake -
+// that the write-first version could not see): every single open is repeated for every script of what the
+// application does FIRST on the stream NewStream returned (c07Scripts: sequences of distinct Write / zero-length
+// Write / Read / CloseWrite / CloseRead / Close), on the optimistic and on the negotiated path alike, and checked
+// by oracleFirstUse().
 
 import (
 	"bytes"
@@ -37,21 +43,106 @@ import (
 	"github.com/libp2p/go-libp2p/x/verif/vrep"
 )
 
-// c07Req is one open: which dialer (= which kind of connection) and the ordered request list.
+// c07Req is one open: which dialer (= which kind of connection), the ordered request list, and what the
+// application does FIRST on the stream NewStream returned (script: a sequence of distinct stream operations, see
+// c07Scripts; "" = nothing special). After the script the open is completed by what is still possible of the
+// standard exchange: write the nonce (unless written / write side closed), read the answer (unless read side closed).
 type c07Req struct {
-	dk   int
-	list []protocol.ID
+	dk     int
+	list   []protocol.ID
+	script string
 }
 
-func (q c07Req) String() string { return fmt.Sprintf("%s:%v", c07ConnName[q.dk], q.list) }
+func (q c07Req) String() string {
+	if q.script == "" {
+		return fmt.Sprintf("%s:%v", c07ConnName[q.dk], q.list)
+	}
+	return fmt.Sprintf("%s:%v first:%s", c07ConnName[q.dk], q.list, c07ShowScript(q.script))
+}
+
+// Stream operations of a script.
+const (
+	c07SWrite      = 'W' // Write(nonce)
+	c07SWriteZero  = 'Z' // Write of zero bytes
+	c07SRead       = 'R' // read everything the handler has been asked for so far (its tag; the nonce echo once the nonce was written)
+	c07SCloseWrite = 'w'
+	c07SCloseRead  = 'r'
+	c07SClose      = 'C'
+)
+
+var c07StepName = map[byte]string{c07SWrite: "Write", c07SWriteZero: "Write0", c07SRead: "Read", c07SCloseWrite: "CloseWrite", c07SCloseRead: "CloseRead", c07SClose: "Close"}
+
+func c07ShowScript(sc string) string {
+	out := ""
+	for i := 0; i < len(sc); i++ {
+		if i > 0 {
+			out += ","
+		}
+		out += c07StepName[sc[i]]
+	}
+	return out
+}
+
+// c07Scripts: every sequence of 1..maxLen DISTINCT stream operations that makes sense on one stream: nothing after
+// Close, no Write / Write0 / CloseWrite after CloseWrite, no Read / CloseRead after CloseRead. Plus the empty script.
+func c07Scripts(maxLen int) []string {
+	out := []string{""}
+	steps := []byte{c07SWrite, c07SWriteZero, c07SRead, c07SCloseWrite, c07SCloseRead, c07SClose}
+	var rec func(cur []byte, wOpen, rOpen bool)
+	rec = func(cur []byte, wOpen, rOpen bool) {
+		if len(cur) > 0 {
+			out = append(out, string(cur))
+		}
+		if len(cur) == maxLen || (len(cur) > 0 && cur[len(cur)-1] == c07SClose) {
+			return
+		}
+		for _, st := range steps {
+			if bytes.IndexByte(cur, st) >= 0 {
+				continue
+			}
+			w, r := wOpen, rOpen
+			switch st {
+			case c07SWrite, c07SWriteZero:
+				if !wOpen {
+					continue
+				}
+			case c07SRead:
+				if !rOpen {
+					continue
+				}
+			case c07SCloseWrite:
+				if !wOpen {
+					continue
+				}
+				w = false
+			case c07SCloseRead:
+				if !rOpen {
+					continue
+				}
+				r = false
+			case c07SClose:
+				w, r = false, false
+			}
+			rec(append(append([]byte(nil), cur...), st), w, r)
+		}
+	}
+	rec(nil, true, true)
+	sort.SliceStable(out, func(i, j int) bool { return len(out[i]) < len(out[j]) })
+	return out
+}
 
 // c07Attempt is what the dialer observed for one open.
 type c07Attempt struct {
 	c07Req
 	nonce      [c07NonceLen]byte
 	s          network.Stream
-	stage      string // "" = NewStream and the first write+read succeeded; else the step that failed
+	stage      string // "" = NewStream and every stream operation made (script + completion) succeeded; else the step that failed
 	err        error
+	used       bool        // a stream operation that sends or awaits something was made: Write (any length), Read, CloseWrite, Close
+	wrote      bool        // the nonce was written
+	readOK     bool        // a Read delivered everything that was expected at that point
+	closedAny  bool        // the script closed a direction (the stream need not be open on both ends once things have settled)
+	closed     bool        // the script called Close
 	optimistic bool        // NewStream returned the lazily negotiating wrapper (protocol chosen from peerstore knowledge)
 	proto      protocol.ID // Protocol() of the dialer's stream
 	remote     peer.ID
@@ -63,18 +154,21 @@ type c07Attempt struct {
 func (a *c07Attempt) ok() bool { return a.stage == "" }
 
 type c07Checker struct {
-	r        *vrep.Result
-	maxLen   int
-	thorough bool
-	blank    bool // the search over BlankHosts
+	r         *vrep.Result
+	maxLen    int
+	scriptLen int      // bound on the number of first stream operations
+	scripts   []string // c07Scripts(scriptLen)
+	thorough  bool
+	blank     bool // the search over BlankHosts
 
-	opens   atomic.Int64
-	tNew    atomic.Int64 // nanoseconds spent building fixtures / applying operations / probing states (summed over workers)
-	tApply  atomic.Int64
-	tVisit  atomic.Int64
-	nNew    atomic.Int64
-	groups  atomic.Int64
-	pstates atomic.Int64
+	plainSamples, scriptSamples atomic.Int64
+	opens                       atomic.Int64
+	tNew                        atomic.Int64 // nanoseconds spent building fixtures / applying operations / probing states (summed over workers)
+	tApply                      atomic.Int64
+	tVisit                      atomic.Int64
+	nNew                        atomic.Int64
+	groups                      atomic.Int64
+	pstates                     atomic.Int64
 
 	mu      sync.Mutex
 	classes map[string]struct{}
@@ -120,21 +214,60 @@ func (in *c07Inst) attempt(a *c07Attempt) {
 	a.s, a.proto = s, s.Protocol()
 	_, a.optimistic = s.(*streamWrapper)
 	a.remote, a.limited = s.Conn().RemotePeer(), s.Conn().Stat().Limited
-	// first use: write a fresh nonce, read the answer
-	if _, err := s.Write(append(append([]byte(nil), a.prefix...), a.nonce[:]...)); err != nil {
-		a.stage, a.err = "Write", err
-		s.Reset()
+	wOpen, rOpen := true, true
+	expect := 4 // what the handler sends: its tag unasked, then the echo of the nonce once it got one
+	step := func(st byte) bool {
+		var err error
+		switch st {
+		case c07SWrite:
+			a.used, a.wrote = true, true
+			expect += c07NonceLen
+			_, err = s.Write(append(append([]byte(nil), a.prefix...), a.nonce[:]...))
+		case c07SWriteZero:
+			a.used = true
+			_, err = s.Write(nil)
+		case c07SRead:
+			a.used = true
+			_ = s.SetReadDeadline(time.Now().Add(30 * time.Second)) // virtual: fires only when nothing else can happen
+			buf := make([]byte, expect-len(a.reply))
+			var n int
+			n, err = io.ReadFull(s, buf)
+			a.reply = append(a.reply, buf[:n]...)
+			if err == nil {
+				_ = s.SetReadDeadline(time.Time{})
+				a.readOK = true
+			}
+		case c07SCloseWrite:
+			a.used, a.closedAny, wOpen = true, true, false
+			err = s.CloseWrite()
+		case c07SCloseRead:
+			// (not a "use": nothing is sent and nothing awaited)
+			a.closedAny, rOpen = true, false
+			err = s.CloseRead()
+		case c07SClose:
+			a.used, a.closedAny, a.closed, wOpen, rOpen = true, true, true, false, false
+			err = s.Close()
+		}
+		if err != nil {
+			a.stage, a.err = c07StepName[st], err
+			s.Reset()
+			return false
+		}
+		return true
+	}
+	// what the application does first ...
+	for i := 0; i < len(a.script); i++ {
+		if !step(a.script[i]) {
+			return
+		}
+	}
+	// ... and the rest of the standard first use: write a fresh nonce, read the answer
+	if wOpen && !a.wrote && !step(c07SWrite) {
 		return
 	}
-	_ = s.SetReadDeadline(time.Now().Add(30 * time.Second)) // virtual: fires only when nothing else can happen
-	reply := make([]byte, 4+c07NonceLen)
-	if _, err := io.ReadFull(s, reply); err != nil {
-		a.stage, a.err = "Read", err
-		s.Reset()
+	if rOpen && len(a.reply) < expect && !step(c07SRead) {
 		return
 	}
-	_ = s.SetReadDeadline(time.Time{})
-	a.reply = reply
 }
 
 func c07ProtoStat(rm network.ResourceManager, p protocol.ID) (st network.ScopeStat) {
@@ -192,13 +325,19 @@ func (ck *c07Checker) probeWith(in *c07Inst, reqs []c07Req, restore bool, why st
 	window := append([]*c07Inv(nil), in.log[mark:]...)
 	in.mu.Unlock()
 
-	verr := ck.oracle(in, atts, window)
+	var verr error
+	if len(atts) > 1 || atts[0].script == "" {
+		verr = ck.oracle(in, atts, window)
+	}
+	if verr == nil && len(atts) == 1 {
+		verr = ck.oracleFirstUse(in, atts[0], window)
+	}
 	if verr == nil {
 		verr = ck.scopesWhileOpen(in, atts)
 	}
-	// both ends finish: the dialer closes, the handler sees EOF and closes
+	// both ends finish: the dialer closes (unless its script did), the handler sees EOF and closes
 	for _, a := range atts {
-		if a.ok() {
+		if a.ok() && !a.closed {
 			if err := a.s.Close(); err != nil {
 				a.s.Reset()
 			}
@@ -332,6 +471,79 @@ func (ck *c07Checker) oracle(in *c07Inst, atts []*c07Attempt, window []*c07Inv) 
 	return nil
 }
 
+// oracleFirstUse checks ONE open made alone (so every handler invocation in the window belongs to it, whether or
+// not the handler received a nonce) for every script of first stream operations.
+func (ck *c07Checker) oracleFirstUse(in *c07Inst, a *c07Attempt, window []*c07Inv) error {
+	for _, v := range window {
+		if v.deadAt {
+			return seqmc.Violation("removed-handler-invoked", "%s", c07DescInv(in, v))
+		}
+	}
+	// "the stream it gets is bound to one of the requested protocols"
+	if a.s != nil && !c07Has(a.list, a.proto) {
+		return seqmc.Violation("stream-bound-to-unrequested-protocol", "%s", c07DescAttempt(a))
+	}
+	// "If the two sides have no protocol in common the open fails - at the latest on first use - and no application
+	// handler runs". The dialer can observe the failure only if it reads; a script that closed the read side gets
+	// no verdict on "fails".
+	if !in.common(a.list) {
+		if len(window) > 0 {
+			return seqmc.Violation("handler-ran-without-common-protocol", "%s; %s", c07DescAttempt(a), c07DescInv(in, window[0]))
+		}
+		if a.ok() && a.readOK {
+			return seqmc.Violation("open-succeeded-without-common-protocol", "%s, but the listener handles none of the requested protocols", c07DescAttempt(a))
+		}
+		return nil
+	}
+	if len(window) > 1 {
+		return seqmc.Violation("more-than-one-handler-ran", "%s; %s; %s", c07DescAttempt(a), c07DescInv(in, window[0]), c07DescInv(in, window[1]))
+	}
+	if a.s == nil {
+		return nil
+	}
+	if len(window) == 0 {
+		if len(a.reply) > 0 {
+			return seqmc.Violation("no-handler-ran", "%s and the dialer read %q, but none of the listener's handlers ran", c07DescAttempt(a), a.reply)
+		}
+		// "the stream it gets is bound to one of the requested protocols, the remote runs exactly the handler registered
+		// for (or matching) that protocol": NewStream returned a stream bound to P, the listener has a live handler that
+		// is registered for / matches P, and the application used the stream ("at the latest on first use" - an
+		// optimistically opened stream sends nothing before that).
+		if a.used && len(in.acceptors(a.proto)) > 0 {
+			return seqmc.Violation("handler-not-reached", "%s; the listener has a handler for %q (%v) but no handler ran", c07DescAttempt(a), a.proto, in.acceptors(a.proto))
+		}
+		return nil
+	}
+	v := window[0]
+	// "the remote runs exactly the handler registered for (or matching) that protocol"
+	if !v.reg.accepts(a.proto) {
+		return seqmc.Violation("wrong-handler-ran", "%s; %s - that handler neither is registered for nor matches %q", c07DescAttempt(a), c07DescInv(in, v), a.proto)
+	}
+	// "on a stream reporting the same protocol ID"
+	if v.proto != a.proto {
+		return seqmc.Violation("ends-disagree-on-protocol", "%s; %s", c07DescAttempt(a), c07DescInv(in, v))
+	}
+	// "the bytes then exchanged flow between precisely those two endpoints": whatever the handler received is what
+	// this dialer wrote, whatever the dialer read is what this handler wrote
+	in.mu.Lock()
+	gotNonce, nonce := v.gotNonce, v.nonce
+	in.mu.Unlock()
+	if gotNonce && (!a.wrote || nonce != a.nonce) {
+		return seqmc.Violation("handler-read-foreign-bytes", "%s; %s; the handler read %q, the dialer wrote the nonce: %v (%q)", c07DescAttempt(a), c07DescInv(in, v), nonce[:], a.wrote, a.nonce[:])
+	}
+	exp := c07Tag(v.reg)
+	if a.wrote {
+		exp = append(exp, a.nonce[:]...)
+	}
+	if !bytes.HasPrefix(exp, a.reply) {
+		return seqmc.Violation("echo-mismatch", "%s; %s; the dialer read %q, expected that handler's tag followed by the nonce %q", c07DescAttempt(a), c07DescInv(in, v), a.reply, a.nonce[:])
+	}
+	if v.remote != in.D[a.dk].id || a.remote != in.L.id || v.limited != (a.dk == c07Limited) || a.limited != (a.dk == c07Limited) {
+		return seqmc.Violation("wrong-endpoints", "%s; %s; dialer's stream: remote=%s limited=%v; handler's stream: limited=%v", c07DescAttempt(a), c07DescInv(in, v), a.remote.ShortString(), a.limited, v.limited)
+	}
+	return nil
+}
+
 // "the stream is charged to the negotiated protocol's resource scope on both sides": in the quiescent state
 // after the first use the only streams with a protocol of the universe are the successful opens of this group.
 func (ck *c07Checker) scopesWhileOpen(in *c07Inst, atts []*c07Attempt) error {
@@ -339,6 +551,11 @@ func (ck *c07Checker) scopesWhileOpen(in *c07Inst, atts []*c07Attempt) error {
 		wantL := 0
 		var wantD [2]int
 		for _, a := range atts {
+			if a.closedAny {
+				// the script closed a direction: whether the stream still exists on an end once everything has settled
+				// depends on what the other end did meanwhile; the count "while open" is taken on the other opens
+				return nil
+			}
 			if a.ok() && a.proto == p {
 				wantL++
 				wantD[a.dk]++
@@ -424,7 +641,15 @@ func (ck *c07Checker) classify(in *c07Inst, atts []*c07Attempt, window []*c07Inv
 			res = fmt.Sprintf("ok req#%d %s", idx, kind)
 		}
 		cls := fmt.Sprintf("%s %s %s common=%v", c07ConnName[a.dk], path, res, in.common(a.list))
-		if len(atts) > 1 {
+		if a.script != "" {
+			// the first-use dimension: path x script x (did it work, did a handler run); connection kind, list position
+			// and handler kind are in the classes of the plain opens
+			res = "fail@" + a.stage
+			if a.ok() {
+				res = "ok"
+			}
+			cls = fmt.Sprintf("first:%s %s %s handler-ran=%v bound-protocol-handled=%v", c07ShowScript(a.script), path, res, len(window) > 0, a.s != nil && len(in.acceptors(a.proto)) > 0)
+		} else if len(atts) > 1 {
 			// which of two concurrent opens finds the protocol already recorded by the other (and so takes the
 			// optimistic path) is up to the scheduler: not part of the class
 			cls = fmt.Sprintf("%s concurrent %s common=%v", c07ConnName[a.dk], res, in.common(a.list))
@@ -442,7 +667,17 @@ func (ck *c07Checker) classify(in *c07Inst, atts []*c07Attempt, window []*c07Inv
 		ck.sampled[cls] = struct{}{}
 		ck.mu.Unlock()
 		// samples: the first case of an outcome class, the less common classes first
-		if !seenCls && len(in.hist) >= 2 && (!a.ok() && a.s != nil || a.ok() && a.list[0] != a.proto || len(atts) > 1) {
+		// at most 4 plain cases and 2 of the first-use dimension (an optimistic open whose first operation is not a
+		// Write), so that both kinds appear among the (at most 6) samples of the record
+		want := false
+		if !seenCls && len(in.hist) >= 2 {
+			if a.script == "" {
+				want = (!a.ok() && a.s != nil || a.ok() && a.list[0] != a.proto || len(atts) > 1) && ck.plainSamples.Add(1) <= 4
+			} else {
+				want = a.optimistic && a.script[0] != c07SWrite && ck.scriptSamples.Add(1) <= 2
+			}
+		}
+		if want {
 			ck.r.Sample(map[string]any{"state": in.pkey, "history": append([]string(nil), in.hist...), "opens": fmt.Sprint(atts2reqs(atts)), "open": a.c07Req.String(), "observed": c07DescAttempt(a), "outcome": cls})
 		}
 	}
@@ -476,10 +711,13 @@ func (ck *c07Checker) visit(in *c07Inst) error {
 		return nil
 	}
 	ck.pstates.Add(1)
-	for dk := range in.D {
-		for _, l := range c07Lists(ck.maxLen) {
-			if err := ck.probe(in, []c07Req{{dk: dk, list: l}}, true, "sequential"); err != nil {
-				return err
+	// every request list x every script of first stream operations ("" first: the plain write+read)
+	for _, sc := range ck.scripts {
+		for dk := range in.D {
+			for _, l := range c07Lists(ck.maxLen) {
+				if err := ck.probe(in, []c07Req{{dk: dk, list: l, script: sc}}, true, "sequential"); err != nil {
+					return err
+				}
 			}
 		}
 	}
@@ -550,10 +788,15 @@ func c07RealNow() int64 {
 // ---------- the check ----------
 
 func c07NewChecker(part string, blank bool) *c07Checker {
-	ck := &c07Checker{r: vrep.New("C07", part), maxLen: 2, thorough: vrep.Thorough(), blank: blank, classes: map[string]struct{}{}, sampled: map[string]struct{}{}, caps: map[string]int{}}
+	ck := &c07Checker{r: vrep.New("C07", part), maxLen: 2, scriptLen: 2, thorough: vrep.Thorough(), blank: blank, classes: map[string]struct{}{}, sampled: map[string]struct{}{}, caps: map[string]int{}}
 	if ck.thorough {
 		ck.maxLen = 3
+		ck.scriptLen = 3
 	}
+	if v, err := strconv.Atoi(os.Getenv("VERIF_C07_SCRIPTLEN")); err == nil && v >= 0 {
+		ck.scriptLen = v // experiments only; the evidence reports the bound actually used
+	}
+	ck.scripts = c07Scripts(ck.scriptLen)
 	return ck
 }
 
@@ -575,6 +818,7 @@ func c07Search(t *testing.T, part string, blank bool, depth int, deadline time.T
 		r.Bounds["operations"] = "set exact / set match(prefix /a/) / remove, each via the host API (identify push) or directly on the mux (stale knowledge); dialers forget; dialers learn by opening"
 	}
 	r.Bounds["request_list_len"] = fmt.Sprintf("1..%d (ordered, with repetition)", ck.maxLen)
+	r.Bounds["first_stream_operations"] = fmt.Sprintf("every sequence of 0..%d distinct operations of {Write(nonce), Write(zero bytes), Read, CloseWrite, CloseRead, Close} that is possible on one stream (%d scripts), then what is left of write nonce + read answer; on every single open (not on the concurrent pairs)", ck.scriptLen, len(ck.scripts))
 	r.Bounds["connections"] = "direct and limited (Stat().Limited, opened with WithAllowLimitedConn)"
 	r.Bounds["concurrent_opens"] = 2
 
